@@ -101,7 +101,8 @@ fn main() {
             println!("  [{}] {} {:?}: {}", v.property, v.rule, v.shape, v.detail);
         }
         if let Some(v) = out.violations.first() {
-            let (c, s, i, mv, execs) = batch::shrink(&input.case, &out.sched_record, &out.io_record, v, 400);
+            let budget = if std::env::var("VERIF_NOSHRINK").is_ok() { 0 } else { 400 };
+            let (c, s, i, mv, execs) = batch::shrink(&input.case, &out.sched_record, &out.io_record, v, budget);
             println!("minimised ({execs} execs): cfg {:?}", c.cfg);
             for cl in &c.clients {
                 println!("  client: {cl:?}");
